@@ -80,7 +80,7 @@ use std::time::{Duration, SystemTime, UNIX_EPOCH};
 use tensor_chain::block::Transaction;
 use tensor_chain::consensus::{ConsensusConfig, ConsensusManager, DeltaVector};
 use tensor_chain::distributed_tx::{
-    CoordinatorState, DistributedTransaction, DistributedTxConfig, DistributedTxCoordinator, ParticipantState, PrepareRequest,
+    verif_clock, CoordinatorState, DistributedTransaction, DistributedTxConfig, DistributedTxCoordinator, ParticipantState, PrepareRequest,
     PrepareVote, SerializableLockState, TxParticipant, TxPhase, UndoEntry, VoteRecordError,
 };
 use tensor_chain::tx_wal::{PrepareVoteKind, TxWal, TxWalEntry};
@@ -370,6 +370,25 @@ enum RMsg {
     Abort { tx: usize, sh: usize },
 }
 
+/// one call of the coordinator's abort-acknowledgement bookkeeping (replayed after a virtual-clock reload, which
+/// builds a new coordinator object: `abort_states` is not part of the persisted state)
+#[derive(Clone)]
+enum AckOp {
+    Track(u64, Vec<usize>, u64),
+    Ack(u64, usize),
+    Retry(u64),
+}
+/// what the HARNESS knows about one tracked abort broadcast (from the calls it made, not from the coordinator)
+struct TrackedAbort {
+    shards: Vec<usize>,
+    acked: HashSet<usize>,
+    at: u64,
+    resent: u32,
+}
+/// the ack layer's clock starts here (ms)
+const ACK_BASE: u64 = 1_000_000_000;
+const FORGOTTEN: &str = "tensor_chain.distributed_tx.coordinator/abort_forgotten_before_all_acks";
+
 struct Violation {
     class: &'static str,
     what: String,
@@ -416,6 +435,14 @@ struct Real {
     yes_handed: HashSet<(usize, usize)>,
     /// (tx, shard): an ABORT(tx) was delivered to the shard after the last PREPARE(tx) delivered there
     abort_after_prepare: HashSet<(usize, usize)>,
+    /// Ack.lean: the ack layer's clock (ms; `track_abort` / `get_retry_aborts` read it through `verif_clock`)
+    ack_now: u64,
+    ack_log: Vec<AckOp>,
+    tracked: BTreeMap<usize, TrackedAbort>,
+    /// (tx, shard): the shard was a recipient of a tracked abort broadcast of the transaction (since the last crash)
+    tracked_pairs: HashSet<(usize, usize)>,
+    /// (tx, shard): an ABORT(tx) was delivered to the shard
+    told: HashSet<(usize, usize)>,
 }
 
 fn mk_coord(cfg: &DistributedTxConfig) -> DistributedTxCoordinator {
@@ -487,6 +514,11 @@ impl Real {
             wal,
             yes_handed: HashSet::new(),
             abort_after_prepare: HashSet::new(),
+            ack_now: ACK_BASE,
+            ack_log: vec![],
+            tracked: BTreeMap::new(),
+            tracked_pairs: HashSet::new(),
+            told: HashSet::new(),
         }
     }
     /// canonical text of the coordinator's log as `TxWal::replay` reads it back (`showWalEntry` of the driver; the
@@ -770,10 +802,170 @@ impl Real {
                 _ => "other",
             };
             self.reasons.push((d, r.to_string()));
+            // what `process_pending_aborts` does next to sending: `track_abort(tx, shards)`
+            verif_clock::set_now_ms(Some(self.ack_now));
+            self.coord.track_abort(tx, shards.clone());
+            verif_clock::set_now_ms(None);
+            self.ack_log.push(AckOp::Track(tx, shards.clone(), self.ack_now));
+            self.tracked_pairs.extend(shards.iter().map(|sh| (d, *sh)));
+            self.tracked.insert(d, TrackedAbort { shards: shards.clone(), acked: HashSet::new(), at: self.ack_now, resent: 0 });
             for sh in shards {
                 self.pool.push(RMsg::Abort { tx: d, sh });
             }
         }
+    }
+    /// the same `track_abort` / `handle_abort_ack` / `get_retry_aborts` calls, at the same clock values, on the new object
+    fn replay_ack_log(&self) {
+        for op in &self.ack_log {
+            match op {
+                AckOp::Track(tx, shards, at) => {
+                    verif_clock::set_now_ms(Some(*at));
+                    self.coord.track_abort(*tx, shards.clone());
+                },
+                AckOp::Ack(tx, sh) => {
+                    self.coord.handle_abort_ack(*tx, *sh);
+                },
+                AckOp::Retry(at) => {
+                    verif_clock::set_now_ms(Some(*at));
+                    let _ = self.coord.get_retry_aborts();
+                },
+            }
+        }
+        verif_clock::set_now_ms(None);
+    }
+    /// a crash of the coordinator process: `abort_states` is gone (Driver: the ack layer's map is cleared)
+    fn forget_ack_state(&mut self) {
+        self.ack_log.clear();
+        self.tracked.clear();
+        self.tracked_pairs.clear();
+    }
+    fn outstanding(&self, tx: usize) -> Vec<usize> {
+        self.tracked.get(&tx).map_or(vec![], |t| t.shards.iter().copied().filter(|s| !t.acked.contains(s)).collect())
+    }
+    /// `ack <tx> <sh>`: a TxAck(tx, sh) reaches the coordinator.
+    /// ORACLE: `handle_abort_ack` answers "all acknowledged" (and drops the entry) only when every recipient of the
+    /// tracked broadcast has been the subject of a `handle_abort_ack` call since it was tracked.
+    fn ack(&mut self, tx: usize, sh: usize) -> String {
+        let real = self.real_tx(tx);
+        let all = self.coord.handle_abort_ack(real, sh);
+        self.ack_log.push(AckOp::Ack(real, sh));
+        let dup = self.tracked.get(&tx).is_some_and(|t| t.acked.contains(&sh));
+        let known = self.tracked.get(&tx).is_some_and(|t| t.shards.contains(&sh));
+        if let Some(t) = self.tracked.get_mut(&tx) {
+            t.acked.insert(sh);
+        }
+        let out = self.outstanding(tx);
+        self.hits.push(format!(
+            "ack.{}.{}",
+            if !self.tracked.contains_key(&tx) { "untracked" } else if dup { "duplicate" } else if known { "first" } else { "other_shard" },
+            if all { "all_acknowledged" } else if out.len() == 1 { "one_outstanding" } else { "more_outstanding" }
+        ));
+        if all && !out.is_empty() {
+            self.viol.push(Violation {
+                class: FORGOTTEN,
+                what: format!(
+                    "handle_abort_ack(tx {tx}, shard {sh}) answered true (all acknowledged, entry dropped) although of the tracked abort broadcast to shards {:?} only {:?} have acknowledged: shards {out:?} are outstanding (ABORT delivered to them: {:?}); get_retry_aborts will never re-send the ABORT to them",
+                    self.tracked[&tx].shards,
+                    { let mut a: Vec<_> = self.tracked[&tx].acked.iter().copied().collect(); a.sort_unstable(); a },
+                    out.iter().map(|s| self.told.contains(&(tx, *s))).collect::<Vec<_>>(),
+                ),
+            });
+        }
+        if all && out.is_empty() {
+            self.tracked.remove(&tx);
+        }
+        format!("acked {}", all as u8)
+    }
+    /// `aretry <ms>`: the clock advances, `get_retry_aborts`, the ABORT is re-sent (joins the pool) to every shard returned.
+    /// ORACLE: every tracked broadcast with an outstanding shard, fewer than 5 retries and an elapsed back-off
+    /// (cumulative 1 s, 3 s, 7 s, 15 s, 31 s — the doc comment of `get_retry_aborts`) is returned with every outstanding shard.
+    fn aretry(&mut self, d: u64) -> String {
+        self.ack_now += d;
+        verif_clock::set_now_ms(Some(self.ack_now));
+        let r = self.coord.get_retry_aborts();
+        verif_clock::set_now_ms(None);
+        self.ack_log.push(AckOp::Retry(self.ack_now));
+        let mut got: Vec<(usize, Vec<usize>)> = r.into_iter().map(|(t, mut s)| { s.sort_unstable(); (self.dense(t) as usize, s) }).collect();
+        got.sort();
+        let now = self.ack_now;
+        let due: Vec<usize> = self.tracked.iter().filter(|(_, t)| t.resent < 5 && now - t.at >= ((1u64 << (t.resent + 1)) - 1) * 1000).map(|(d, _)| *d).collect();
+        for t in due {
+            let out = self.outstanding(t);
+            let resent: Vec<usize> = got.iter().find(|g| g.0 == t).map_or(vec![], |g| g.1.clone());
+            let missing: Vec<usize> = out.iter().copied().filter(|s| !resent.contains(s)).collect();
+            if !missing.is_empty() {
+                self.hits.push("aretry.outstanding_shard_not_resent".into());
+                self.viol.push(Violation {
+                    class: FORGOTTEN,
+                    what: format!(
+                        "get_retry_aborts() {} ms after the abort broadcast of tx {t} to shards {:?} (retry {} of 5) returned {got:?}: shards {missing:?} never acknowledged (no handle_abort_ack call for them) and the ABORT is not re-sent to them (ABORT delivered to them so far: {:?})",
+                        now - self.tracked[&t].at,
+                        self.tracked[&t].shards,
+                        self.tracked[&t].resent + 1,
+                        missing.iter().map(|s| self.told.contains(&(t, *s))).collect::<Vec<_>>(),
+                    ),
+                });
+            }
+            if let Some(tr) = self.tracked.get_mut(&t) {
+                tr.resent += 1;
+            }
+        }
+        self.hits.push(format!("aretry.{}", if got.is_empty() { "nothing" } else { "resent" }));
+        let shown: Vec<String> = got.iter().map(|(t, s)| format!("{t}:{}", s.iter().map(|x| x.to_string()).collect::<Vec<_>>().join("."))).collect();
+        for (t, shards) in &got {
+            for &sh in shards {
+                self.pool.push(RMsg::Abort { tx: *t, sh });
+            }
+        }
+        format!("retry {}", if shown.is_empty() { "-".to_string() } else { shown.join(",") })
+    }
+    /// `asettle`: one round of the retry loop over a network that now delivers — `aretry 31000`, every RE-SENT abort is
+    /// delivered and acknowledged; nothing else is delivered (an ABORT already in the pool and never delivered stays lost).
+    /// ORACLE: afterwards no recipient of a tracked abort broadcast that no ABORT ever reached is still prepared for the
+    /// transaction / named in the lock table.
+    fn asettle(&mut self) -> String {
+        let from = self.pool.len();
+        self.exec("aretry 31000");
+        let n = self.pool.len() - from;
+        for i in from..from + n {
+            if let RMsg::Abort { tx, sh } = self.pool[i].clone() {
+                self.exec(&format!("deliver {i}"));
+                if sh < self.parts.len() {
+                    self.exec(&format!("ack {tx} {sh}"));
+                }
+            }
+        }
+        let targets: Vec<usize> = (0..self.txs.len()).filter(|&t| self.abort_only(t)).collect();
+        let mut stuck: Vec<String> = vec![];
+        for &t in &targets {
+            for sh in self.txs[t].shards.clone() {
+                if sh >= self.parts.len() {
+                    continue;
+                }
+                let prepared = self.parts[sh].get_awaiting_decision().contains(&self.txs[t].real);
+                let locked: Vec<String> = self.holders(sh).iter().filter(|(_, h)| h.0 == t as u64).map(|(k, _)| kname(*k)).collect();
+                if !prepared && locked.is_empty() {
+                    continue;
+                }
+                stuck.push(format!("{t}.{sh}"));
+                let addressed = self.pool.iter().any(|m| matches!(m, RMsg::Abort { tx, sh: s2 } if *tx == t && *s2 == sh));
+                // judged here: a recipient of a TRACKED broadcast (an `abort()` call's messages are not tracked by the glue)
+                if addressed && self.tracked_pairs.contains(&(t, sh)) && !self.told.contains(&(t, sh)) {
+                    self.hits.push("asettle.stuck.abort_lost_and_never_resent".into());
+                    self.viol.push(Violation {
+                        class: FORGOTTEN,
+                        what: format!(
+                            "tx {t} (participants {:?}) has the one decision ABORT; the ABORT addressed to shard {sh} was never delivered (lost) and shard {sh} never acknowledged; after the retry round (31 s later: get_retry_aborts, every re-sent ABORT delivered and acknowledged) shard {sh} {} and holds its locks on [{}]: the coordinator no longer tracks the abort",
+                            self.txs[t].shards,
+                            if prepared { "is still prepared for it (get_awaiting_decision)" } else { "keeps no prepared record" },
+                            locked.join(","),
+                        ),
+                    });
+                }
+            }
+        }
+        self.hits.push(format!("asettle.{}", if stuck.is_empty() { "clean" } else { "stuck" }));
+        format!("asettled {n} stuck {} |", if stuck.is_empty() { "-".to_string() } else { stuck.join(",") })
     }
     fn decide(&mut self, tx: usize, commit: bool) {
         self.decided.push((tx, commit));
@@ -789,6 +981,7 @@ impl Real {
         let st = self.coord.to_state();
         let before = self.show_pending(&st.pending);
         self.load_state(st);
+        self.replay_ack_log();
         // `to_state` -> bitcode -> `load_from_store` reproduces the pending map (Lean: checkpoint_restore_keeps_pending)
         let after = self.show_pending(&self.coord.to_state().pending);
         if before != after {
@@ -992,6 +1185,12 @@ impl Real {
         let w: Vec<&str> = line.split_whitespace().collect();
         if w.as_slice() == ["settle"] {
             return self.settle();
+        }
+        if w.as_slice() == ["asettle"] {
+            return self.asettle();
+        }
+        if w.first().is_some_and(|x| *x == "crestore" || *x == "wrestart") {
+            self.forget_ack_state();
         }
         let from = self.pool.len();
         let before = self.snapshots();
@@ -1214,6 +1413,7 @@ impl Real {
                             let was = self.parts[sh].get_awaiting_decision().contains(&real);
                             aborting = Some((sh, tx));
                             let _ = self.parts[sh].abort(real);
+                            self.told.insert((tx, sh));
                             let still = self.parts[sh].get_awaiting_decision().contains(&real);
                             if !still {
                                 self.abort_after_prepare.insert((tx, sh));
@@ -1591,6 +1791,14 @@ impl Real {
                 self.pool.push(RMsg::Vote { tx, sh, vote, forged: true });
                 "ok".into()
             },
+            ["ack", t, sh] => match (t.parse::<usize>(), sh.parse::<usize>()) {
+                (Ok(t), Ok(sh)) => self.ack(t, sh),
+                _ => "bad-op".into(),
+            },
+            ["aretry", d] => match d.parse::<u64>() {
+                Ok(d) => self.aretry(d),
+                _ => "bad-op".into(),
+            },
             _ => "bad-op".into(),
         };
         // ---- monitors on the real stores
@@ -1792,6 +2000,8 @@ fn tag_of(line: &str, ans: &str, real: &Real) -> String {
         "crecover" => format!("crecover.{}", if res.contains("dec -") { "no_decision" } else { "decisions" }),
         "wrestart" => format!("wrestart.{}", if res.contains("dec -") { "no_decision" } else { "decisions" }),
         "cvote" => format!("cvote.{}", if a == "voted" { b.to_string() } else { format!("err.{b}") }),
+        "ack" => format!("ack.{b}"),
+        "aretry" => format!("aretry.{}", if b == "-" { "none" } else { "some" }),
         _ => op.to_string(),
     }
 }
@@ -1913,7 +2123,7 @@ fn is_cleanup(line: &str) -> bool {
 /// The script stays inside the property's alphabet (asked of the model): no event is flagged
 /// `!outside`, except participant-side cleanups that are no-ops on the code as it is.
 fn cleanups_are_noops(m: &mut Model, setup: &Setup, lines: &[String]) -> bool {
-    if !lines.iter().any(|l| is_cleanup(l) || l.starts_with("begin ") || l.starts_with("forge ") || l.starts_with("tick ")) {
+    if !lines.iter().any(|l| is_cleanup(l) || l.starts_with("begin ") || l.starts_with("forge ") || l.starts_with("tick ") || l.starts_with("ack ")) {
         return true;
     }
     if m.ask(&setup.init_line()) != "ok" {
@@ -2449,6 +2659,201 @@ fn timeout_abort_script(setup: &Setup, fates: &[Fate], aborts_before_late_votes:
         }
         sc.run("settle".into());
     }
+    sc.full_tx(begin_line(&shards, &ops(20), &embs));
+    sc.run("settle".into());
+    sc.lines
+}
+
+/// what the network does to the ABORT addressed to one participant and to that participant's acknowledgement
+#[derive(Clone, Copy, PartialEq, Debug)]
+enum AckFate {
+    /// ABORT delivered, TxAck delivered once
+    Acked,
+    /// ABORT delivered, TxAck delivered, and delivered AGAIN after every other shard's acknowledgement
+    AckDup,
+    /// ABORT delivered, TxAck delivered twice in a row (while the other acknowledgements are still outstanding)
+    AckDupEarly,
+    /// the ABORT message is lost (never delivered; only a re-sent one can reach the shard)
+    AbortLost,
+    /// ABORT delivered, the TxAck is lost
+    AckLost,
+}
+
+/// The abort-acknowledgement history (Ack.lean): T0 over all shards is aborted — `conflict`: the last shard's key is
+/// held by a single-shard transaction, so T0 collects YES, .., YES, CONFLICT; else the coordinator's timeout fires with
+/// every vote but the last recorded —, the broadcast meets each participant's `AckFate`, [`aretry 1000`, its re-sent
+/// messages lost again,] `asettle` (retry round over a network that delivers); then a loss-free follow-up transaction
+/// over the same keys must commit everywhere; `settle`.
+fn abort_ack_script(setup: &Setup, conflict: bool, fates: &[AckFate], early_retry: bool) -> Vec<String> {
+    use AckFate::*;
+    let n = setup.n;
+    let mut sc = Script::new(setup);
+    let shards: Vec<usize> = (0..n).collect();
+    let embs: Vec<u64> = (0..n as u64).map(|i| 1 + i % 3).collect();
+    let ops = |base: usize| (0..n).map(|sh| parse_ops(&format!("p{}={}", sh + 1, base + sh))).collect::<Vec<_>>();
+    let mut blocker = None;
+    if conflict {
+        let p = sc.run(begin_line(&[n - 1], &[parse_ops(&format!("p{n}=3"))], &[2]));
+        let v = sc.deliver_all(p);
+        sc.deliver_all(v);
+        blocker = Some(sc.real.txs.len() - 1);
+    }
+    let p = sc.run(begin_line(&shards, &ops(7), &embs));
+    let t0 = sc.real.txs.len() - 1;
+    let v = sc.deliver_all(p);
+    let from = sc.real.pool.len();
+    if conflict {
+        sc.deliver_all(v);
+    } else {
+        sc.deliver_all(v.start..v.end.saturating_sub(1));
+        sc.run("tick 3".into());
+        sc.run("sweep".into());
+    }
+    if let Some(b) = blocker {
+        let c = sc.run(format!("ccommit {b}"));
+        sc.deliver_all(c);
+    }
+    // the abort broadcast of T0
+    let aborts: Vec<(usize, usize)> =
+        (from..sc.real.pool.len()).filter_map(|i| if let RMsg::Abort { tx, sh } = &sc.real.pool[i] { (*tx == t0).then_some((i, *sh)) } else { None }).collect();
+    for &(i, sh) in &aborts {
+        if fates.get(sh).is_some_and(|f| *f != AbortLost) {
+            sc.run(format!("deliver {i}"));
+        }
+    }
+    for &(_, sh) in &aborts {
+        match fates.get(sh) {
+            Some(Acked) | Some(AckDup) => {
+                sc.run(format!("ack {t0} {sh}"));
+            },
+            Some(AckDupEarly) => {
+                sc.run(format!("ack {t0} {sh}"));
+                sc.run(format!("ack {t0} {sh}"));
+            },
+            _ => {},
+        }
+    }
+    for &(_, sh) in &aborts {
+        if fates.get(sh) == Some(&AckDup) {
+            sc.run(format!("ack {t0} {sh}"));
+        }
+    }
+    if early_retry {
+        // first back-off step: the ABORT is re-sent to the unacknowledged shards — and lost again
+        sc.run("aretry 1000".into());
+    }
+    sc.run("asettle".into());
+    sc.full_tx(begin_line(&shards, &ops(20), &embs));
+    sc.run("settle".into());
+    sc.lines
+}
+
+/// Directed abort-acknowledgement histories, run first.  The first one is the shortest history in which "the entry is
+/// dropped only when the set of outstanding shards is EMPTY after removing the acknowledging shard" is the only thing
+/// between a duplicated acknowledgement and a YES-voter that never learns the abort: 3 shards, the ABORT to shard 1 is
+/// lost, shard 0's acknowledgement is delivered twice, retry.  The others are its neighbours.
+fn directed_abort_acks() -> Vec<(String, Setup, Vec<String>)> {
+    use AckFate::*;
+    let cases: Vec<(&str, bool, Vec<AckFate>, bool)> = vec![
+        ("3-shards/conflict/abort-to-shard-1-lost+ack-of-shard-0-duplicated", true, vec![AckDup, AbortLost, Acked], false),
+        ("3-shards/conflict/abort-to-shard-1-lost", true, vec![Acked, AbortLost, Acked], false),
+        ("3-shards/conflict/ack-of-shard-0-duplicated", true, vec![AckDup, Acked, Acked], false),
+        ("3-shards/conflict/ack-of-shard-1-lost+ack-of-shard-2-duplicated", true, vec![Acked, AckLost, AckDup], false),
+        ("3-shards/conflict/abort-to-shard-0-lost+ack-of-shard-1-duplicated+retry-lost-again", true, vec![AbortLost, AckDup, Acked], true),
+        ("3-shards/conflict/two-aborts-lost+ack-duplicated", true, vec![AbortLost, AbortLost, AckDup], false),
+        ("3-shards/conflict/early-duplicate", true, vec![AckDupEarly, AbortLost, Acked], false),
+        ("3-shards/timeout/abort-to-shard-1-lost+ack-of-shard-0-duplicated", false, vec![AckDup, AbortLost, Acked], false),
+        ("3-shards/timeout/abort-to-shard-2-lost+ack-of-shard-1-duplicated+retry-lost-again", false, vec![Acked, AckDup, AbortLost], true),
+        ("3-shards/timeout/every-ack-delivered", false, vec![Acked, Acked, Acked], false),
+        ("2-shards/conflict/abort-to-shard-0-lost+ack-of-shard-1-duplicated", true, vec![AbortLost, AckDup], false),
+        ("2-shards/timeout/abort-to-shard-1-lost+ack-of-shard-0-duplicated", false, vec![AckDup, AbortLost], false),
+        ("2-shards/timeout/every-ack-lost", false, vec![AckLost, AckLost], true),
+        ("2-shards/conflict/every-ack-duplicated", true, vec![AckDup, AckDup], false),
+    ];
+    cases
+        .into_iter()
+        .map(|(name, conflict, fates, early)| {
+            let setup = plain_setup(fates.len());
+            let lines = abort_ack_script(&setup, conflict, &fates, early);
+            (name.to_string(), setup, lines)
+        })
+        .collect()
+}
+
+/// Random schedules of the same shape: an aborted transaction over 2–3 shards (conflict vote or timeout), sometimes a
+/// second one aborted by `cabort`; then a random interleaving of ABORT deliveries (some never: lost), acknowledgements of
+/// shards that were told (each possibly several times, at any point), and at most two `aretry` steps whose re-sent
+/// messages are delivered or not; `asettle`; a loss-free follow-up transaction; `settle`.
+fn gen_abort_acks(r: &mut Rng, setup: &Setup) -> Vec<String> {
+    let n = setup.n;
+    let mut sc = Script::new(setup);
+    let shards: Vec<usize> = (0..n).collect();
+    let embs: Vec<u64> = (0..n as u64).map(|i| 1 + i % 3).collect();
+    let ops = |base: usize| (0..n).map(|sh| parse_ops(&format!("p{}={}", sh + 1, base + sh))).collect::<Vec<_>>();
+    let conflict = r.below(2) == 0;
+    let mut blocker = None;
+    if conflict {
+        let p = sc.run(begin_line(&[n - 1], &[parse_ops(&format!("p{n}=3"))], &[2]));
+        let v = sc.deliver_all(p);
+        sc.deliver_all(v);
+        blocker = Some(sc.real.txs.len() - 1);
+    }
+    let p = sc.run(begin_line(&shards, &ops(7), &embs));
+    let v = sc.deliver_all(p);
+    if conflict {
+        sc.deliver_all(v);
+    } else {
+        sc.deliver_all(v.start..v.end.saturating_sub(1 + r.below(2) as usize));
+        sc.run("tick 3".into());
+        sc.run("sweep".into());
+    }
+    if let Some(b) = blocker {
+        let c = sc.run(format!("ccommit {b}"));
+        sc.deliver_all(c);
+    }
+    if r.below(4) == 0 {
+        // a second aborted transaction on other keys (two tracked entries)
+        let p2 = sc.run(begin_line(&shards, &(0..n).map(|sh| parse_ops(&format!("p{}=1", sh + 5))).collect::<Vec<_>>(), &embs));
+        let v2 = sc.deliver_all(p2);
+        sc.deliver_all(v2.start..v2.start + r.below(n as u64) as usize);
+        let t = sc.real.txs.len() - 1;
+        sc.run(format!("cabort {t}"));
+    }
+    // per (tx, shard) of the abort broadcasts: is the original ABORT lost?
+    let lost: HashSet<usize> = (0..sc.real.pool.len()).filter(|i| matches!(sc.real.pool[*i], RMsg::Abort { .. }) && r.below(3) == 0).collect();
+    let mut retries = 0;
+    let steps = 4 + r.below(10);
+    for _ in 0..steps {
+        let aborts: Vec<(usize, usize, usize)> =
+            (0..sc.real.pool.len()).filter_map(|i| if let RMsg::Abort { tx, sh } = &sc.real.pool[i] { Some((i, *tx, *sh)) } else { None }).collect();
+        let mut told: Vec<(usize, usize)> = sc.real.told.iter().copied().collect();
+        told.sort_unstable();
+        match r.below(10) {
+            0..=3 => {
+                let c: Vec<_> = aborts.iter().filter(|a| !lost.contains(&a.0)).collect();
+                if !c.is_empty() {
+                    let a = c[r.below(c.len() as u64) as usize];
+                    sc.run(format!("deliver {}", a.0));
+                }
+            },
+            4..=8 => {
+                // an acknowledgement of a shard that was told: first, duplicate, or of an entry already dropped
+                if !told.is_empty() {
+                    // bias: a shard that has acknowledged already while exactly one other shard is outstanding
+                    let dup: Vec<(usize, usize)> = told.iter().copied().filter(|(t, s)| sc.real.tracked.get(t).is_some_and(|tr| tr.acked.contains(s)) && sc.real.outstanding(*t).len() == 1).collect();
+                    let (t, s) = if !dup.is_empty() && r.below(2) == 0 { dup[r.below(dup.len() as u64) as usize] } else { told[r.below(told.len() as u64) as usize] };
+                    sc.run(format!("ack {t} {s}"));
+                }
+            },
+            _ => {
+                if retries < 2 {
+                    retries += 1;
+                    sc.run(format!("aretry {}", [500, 1000, 2000, 4000][r.below(4) as usize]));
+                }
+            },
+        }
+    }
+    sc.run("asettle".into());
     sc.full_tx(begin_line(&shards, &ops(20), &embs));
     sc.run("settle".into());
     sc.lines
@@ -3151,7 +3556,7 @@ const EXPECTED: &[&str] = &[
     "wrestart.decisions", "wrestart.no_decision", "wal.restart.nothing_restored", "wal.restart.restored_prepared",
     "wal.restart.after_abort_of_tx_with_a_logged_yes_from_every_participant", "wal.restart.crash_with_preparing_entry",
     "wal.restart.crash_with_prepared_entry", "wal.restart.crash_with_committing_entry", "wal.restart.crash_with_aborting_entry",
-    "settle.clean", "settle.no_aborted_tx",
+    "settle.clean", "settle.no_aborted_tx", "asettle.clean", "aretry.resent", "ack.duplicate.one_outstanding", "ack.first.all_acknowledged",
 ];
 
 /// Does the script, run on fresh REAL objects only, trip the monitor `class`?
@@ -3382,6 +3787,39 @@ fn main() {
     }
 
     // ---- random timeout-abort schedules (random fates of the participants around the coordinator's timeout)
+    // Directed abort-acknowledgement histories (Ack.lean), run before the random streams.
+    // (`--skip-directed-abort-acks`: mutation-testing aid)
+    let skip_aa = args.extra.iter().any(|a| a == "--skip-directed-abort-acks");
+    for (name, setup, lines) in directed_abort_acks().into_iter().filter(|_| !skip_aa) {
+        let o = run_script(&mut m, &mut rep, "directed-abort-acks", &setup, &lines, true);
+        if o.tags.iter().any(|t| t == "outside_alphabet_event") {
+            rep.note(&format!("directed-abort-acks history {name} left the alphabet (model flagged an event !outside)"));
+        }
+        // on the code as it is: T0 is aborted, the retry round leaves nobody prepared and the follow-up transaction commits
+        let ok = o.tags.iter().any(|t| t == "asettle.clean") && o.tags.iter().filter(|t| *t == "ccommit.ok").count() >= 1 && !o.tags.iter().any(|t| t == "settle.stuck");
+        if o.violations.is_empty() && !o.disagreed && !ok {
+            rep.note(&format!("directed-abort-acks history {name} did not reach abort + clean asettle + committed follow-up"));
+        }
+        record(&mut rep, &mut m, "directed-abort-acks", &setup, &lines, &o);
+        if name.starts_with("3-shards/conflict/abort-to-shard-1-lost+ack") {
+            rep.sample(json!({"stream": "directed-abort-acks", "name": name, "setup": setup.init_line(), "script": lines}));
+        }
+    }
+    let mut r = root.fork("abort-ack-schedules");
+    let mut violating = 0;
+    for i in 0..if args.thorough { 1200 } else { 100 } {
+        let setup = plain_setup(2 + r.below(2) as usize);
+        let lines = gen_abort_acks(&mut r, &setup);
+        let o = run_script(&mut m, &mut rep, "abort-ack-schedules", &setup, &lines, true);
+        record(&mut rep, &mut m, "abort-ack-schedules", &setup, &lines, &o);
+        if i < 1 {
+            rep.sample(json!({"stream": "abort-ack-schedules", "setup": setup.init_line(), "script": lines}));
+        }
+        violating += usize::from(!o.violations.is_empty());
+        if violating >= 6 {
+            break;
+        }
+    }
     let mut r = root.fork("timeout-abort-schedules");
     let mut violating = 0;
     for i in 0..if args.thorough { 1500 } else { 120 } {
